@@ -12,7 +12,7 @@ BUDGET = {"quick": 300, "thorough": 48000}
 REQUIRED = {
     "quick": {"fills": 3000, "class/run_with_self_trade": 20, "class/run_with_round_of_3plus_fills": 20,
               "class/run_with_fills_on_hft_path": 20, "holdings_comparisons": 20000, "total_checks": 1000,
-              "class/run_with_fills_at_price_zero": 4, "class/run_with_more_than_100_fills_at_one_market_time": 3},
+              "class/run_with_fills_at_price_zero": 3, "class/run_with_more_than_100_fills_at_one_market_time": 3},
     "thorough": {"fills": 100000, "class/run_with_self_trade": 500, "class/run_with_round_of_3plus_fills": 500,
                  "class/run_with_fills_on_hft_path": 500, "holdings_comparisons": 500000, "total_checks": 30000,
                  "class/run_with_fills_at_price_zero": 250, "class/run_with_more_than_100_fills_at_one_market_time": 300},
